@@ -10,7 +10,7 @@ from .c01 import shares_net
 
 PID = "C05"
 LEVEL = "exploration"
-RULE = ("Valid designs from the C01 generator; the names Hdl21 invents per module (implicit port-reference and no-connect "
+RULE = ("Valid designs from the C01 generator (4 in 10 with all designer-chosen module-level names in upper case); the names Hdl21 invents per module (implicit port-reference and no-connect "
         "signals, named no-connects, flattened bundle members, array elements, pair members) are learnt from a first export; then "
         "1-4 designer objects (internal signals, ports incl. ports of sub-modules, instances, bundle instances, no-connect names) "
         "are renamed onto those names or their '_' / '__' variants, in varying declaration orders and construction styles. Oracle: "
@@ -137,6 +137,22 @@ def eval_case(case):
     return v
 
 
+def upcase(spec):
+    """The same design with every designer-chosen module-level name (signals, ports, instances, bundle instances, no-connect
+    names) in upper case; port names of cells and member names of bundle definitions stay as they are, so invented names
+    become mixed-case (I0_a, G1_x)."""
+    s = copy.deepcopy(spec)
+    for mi, m in enumerate(s["modules"]):
+        if m.get("history"):
+            return spec
+        for kind, names in (("sig", [x[0] for x in m["sigs"]]), ("inst", [i["name"] for i in m["insts"]]),
+                            ("bun", [b[0] for b in m["bundles"]]), ("nc", sorted(nc_names(m)))):
+            for old in names:
+                if old.upper() != old:
+                    rename(s, mi, kind, old, old.upper())
+    return s
+
+
 def make_case(d, spec, invented):
     """Apply 1-4 adversarial renames to a copy of spec (draws through D d)."""
     s = copy.deepcopy(spec)
@@ -201,6 +217,16 @@ def shard(idx, n, tier):
     @given(st.data())
     def run(data):
         spec = data.draw(gen.designs(opts))
+        upper = data.draw(st.integers(0, 9)) < 4
+        if upper:
+            feats0 = spec.get("features", [])
+            spec = upcase(spec)
+            try:
+                model.flatten(spec)
+            except model.ModelError as e:
+                res.harness_error("upper-cased spec is ill-formed: %s" % e)
+                return
+            spec["features"] = list(feats0) + ["upper_case_names"]
         inv = par.pristine(learn_invented, spec)
         if par.is_exc(inv):
             res.reject("base:" + inv[1])
@@ -219,7 +245,7 @@ def shard(idx, n, tier):
             res.harness_error("%s %s %s" % (v[1], v[2], v[3][-600:]))
             return
         feats = ["rename_" + r[1] for r in case["renames"]] + ["underscore_variant" for r in case["renames"] if r[3].endswith("_")]
-        feats += [f for f in spec.get("features", []) if f in ("named_noconn", "noconn", "array", "pair", "bundle_port", "portref_root_unconnected", "bundle_conn")]
+        feats += [f for f in spec.get("features", []) if f in ("upper_case_names", "named_noconn", "noconn", "array", "pair", "bundle_port", "portref_root_unconnected", "bundle_conn")]
         if v["status"] == "reject":
             res.reject(v["sig"])
             res.notes["resolved_by_raising"] += 1
